@@ -98,6 +98,29 @@ def parse_rfc3339_datetime(rfc3339):
         delta = -delta
     return raw_datetime.replace(tzinfo=timezone(delta))
 
+def find_nested_states(states, current_state, found):
+    """
+    Recursively collect, in found, the "States" objects of the nested state
+    machines (Parallel Branches and Map ItemProcessor/Iterator) below the given
+    "States" object that contain a state with the given name.
+    """
+    for candidate in states.values():
+        if not isinstance(candidate, dict):
+            continue
+        children = []
+        branches = candidate.get("Branches")
+        if isinstance(branches, list):
+            children.extend(branches)
+        for field in ("ItemProcessor", "Iterator"):
+            if isinstance(candidate.get(field), dict):
+                children.append(candidate[field])
+        for child in children:
+            child_states = child.get("States") if isinstance(child, dict) else None
+            if isinstance(child_states, dict):
+                if current_state in child_states:
+                    found.append(child_states)
+                find_nested_states(child_states, current_state, found)
+
 def find_state(current_state_machine, current_state, force_full_lookup=False):
     """
     Look-up the specified JSON state machine to find the state object with the
@@ -110,19 +133,19 @@ def find_state(current_state_machine, current_state, force_full_lookup=False):
         If the state can't be found in the parent state machine search for
         it more deeply using recursive descent, as the specified state might
         actually be in a Parallel branch or Map Iterator state machine.
-        Because JSONPath doesn't have a parent operator and we want to get
-        the parent States object too we get the full JSONPath string for
-        the query then use simple string splits to find the path of that.
+        The search walks the nested state machines themselves rather than
+        using a JSONPath query built from the state name, because state names
+        may contain characters that are special in JSONPath (e.g. "a.b",
+        "x[0]", "*") and because a query would also match object keys that are
+        not states, such as the fields of a Result or Parameters payload.
+        The returned path has one entry for every state of that name found.
         """
-        path = get_full_jsonpath(current_state_machine, "$.." + current_state)
-        if path:
-            states_path = path[0].rpartition("['States']")[0]
-            if states_path:
-                branch = apply_jsonpath(current_state_machine, states_path)
-                current_state_machine = branch["States"]
-                state = current_state_machine.get(current_state)
-        else:
-            path = []
+        found = [] if state == None else [current_state_machine]
+        find_nested_states(current_state_machine, current_state, found)
+        path = ["$"] * len(found)
+        if found:
+            current_state_machine = found[0]
+            state = current_state_machine.get(current_state)
     else:
         path = ["$['" + current_state + "']"]
 
